@@ -575,6 +575,7 @@ def c06(tier, seed):
     scs += canvas_gen("C06", v, "cross", 3, 6 if th else 2, salt=seed + 2)
     scs += canvas_gen("C06", v, "cross", 4, 2, salt=seed + 3) if th else []
     scs += extra_scenarios("C06")
+    scs += known_scenarios("C06", "canvas")
     scs += canvas_gen("C06", v, "layer", 5, 3, draws=3, simulate=5000 if th else 900, depth=10, seed=seed, salt=seed)
     scs += drive("C06", "canvas", seed + 300, 2500 if th else 300)
     v.exhaustive = True
